@@ -15,8 +15,8 @@ ASSUMPTIONS = ["reference renderer/parser vf/ref/asm.py", "opcode names are the 
 NSHARDS = {"quick": 32, "thorough": 64}
 BUDGET_S = {"quick": 200, "thorough": 1800}
 MIN_HITS = {
-    'quick': {"exh2": 71442, "grammar": 843, "ws": 1396, "xasm": 79403, "digit_push": 34805, "reject_case": 356, "accept_case": 219, "conditional": 25809},
-    'thorough': {"exh2": 85730, "grammar": 192000, "ws": 325530, "xasm": 277957, "digit_push": 111679, "reject_case": 46023, "accept_case": 69177, "conditional": 127284, "push>=65536": 5353},
+    'quick': {"exh2": 71442, "grammar": 843, "ws": 1396, "xasm": 79453, "digit_push": 34805, "reject_case": 546, "accept_case": 222, "conditional": 25844},
+    'thorough': {"exh2": 85730, "grammar": 768051, "ws": 1302760, "xasm": 862383, "digit_push": 322095, "reject_case": 661180, "accept_case": 260419, "conditional": 539980, "push>=65536": 21370},
 }
 SEPS = [" ", "  ", "     ", " \n ", " \r\n ", " \n\n ", " \t ", "\n ", " \n", " \r\n", "\t ",
         # Unicode whitespace / line breaks attached to the tokens on either side of the separating blank
@@ -70,6 +70,16 @@ def cases(ctx):
         toks = [("push", bytes(r.choice([0x10, 0x11, 0x12, 0x15, 0x16, 0x09, 0x99, 0x00, 0x01]) for _ in t_[1])) if t_[0] == "push" and len(t_[1]) <= 2 and r.random() < 0.5 else t_ for t_ in toks]
         toks = [t_ for t_ in toks if not (t_[0] == "op" and t_[1] == 0 and False)]
         yield {"k": "script", "hex": wire.detok(toks).hex(), "tag": "grammar", "ws_seed": r.getrandbits(30)}
+    # conditionals opened by each of the four openers, alone, nested in each other, with and without ELSE (the parser folds all four)
+    kk2 = 0
+    for o1 in (0x63, 0x64, 0x65, 0x66):
+        for body in (b"", b"\x51", b"\x51\x67\x52", b"\x67", b"\x67\x67"):
+            for o2 in (None, 0x63, 0x64, 0x65, 0x66):
+                kk2 += 1
+                if kk2 % N != S:
+                    continue
+                inner = (bytes([o2]) + b"\x53\x68") if o2 else b""
+                yield {"k": "script", "hex": (b"\x51" + bytes([o1]) + inner + body + b"\x68").hex(), "tag": "structural", "may_reject": True}
     # single minimal pushes of log-spaced lengths
     for li, L in enumerate(sorted(set([75, 76, 255, 256, 520, 521] + [v for k_ in range(9, 18) for v in (2**k_ - 1, 2**k_, 2**k_ + 1, 3 * 2 ** (k_ - 1))] + [100000]))):
         if li % N != S:
@@ -90,6 +100,10 @@ def cases(ctx):
         yield {"k": "text", "text": " ".join(good[:j] + [bad] + good[j:]), "expect": "reject"}
         # invisible characters that are NOT whitespace (byte-order mark, zero-width space/joiner, soft hyphen, NUL), alone or glued to
         # an otherwise valid token, at the very start, in the middle and at the very end of the text
+        # escape sequences of other text formats inside a token (JSON \\uXXXX, percent-encoding, HTML entities, quotes)
+        esc_bad = r.choice(["OP_\\u0044UP", "\\u004fP_DUP", "OP_DUP\\n", "\"OP_DUP\"", "'OP_1'", "OP%5FDUP", "OP&#95;DUP", "OP_D\\x55P", "\\x51", "5\\u0031", "\\u0035\\u0031"])
+        j3 = r.randrange(len(good) + 1)
+        yield {"k": "text", "text": " ".join(good[:j3] + [esc_bad] + good[j3:]), "expect": "reject", "invisible": True}
         inv = r.choice(["\ufeff", "\u200b", "\u2060", "\u00ad", "\x00", "\u200d"])
         g0 = r.choice(good)
         bad2 = r.choice([inv, inv + g0, g0 + inv, g0[: len(g0) // 2] + inv + g0[len(g0) // 2 :]])
